@@ -203,7 +203,23 @@ def cumulative_trapezoid(y, x=None, dx=1.0, axis=-1, initial=None):
 
 # --------------------------------------------------------------------------- sparse (exact) + linear solves (contract)
 
-class SymMatrix:
+class _MatrixFormats:
+    """format conversions are identities for the dense symbolic model"""
+
+    def tocsc(self):
+        return self
+
+    def tocsr(self):
+        return self
+
+    def tocoo(self):
+        return self
+
+    def asformat(self, fmt, copy=False):
+        return self
+
+
+class SymMatrix(_MatrixFormats):
     def __init__(self, rows):
         self.rows = rows
         self.shape = (len(rows), len(rows))
@@ -296,9 +312,40 @@ def spsolve(A, b, permc_spec=None, use_umfpack=True):
     return x
 
 
+class _Factorization:
+    """scipy.sparse.linalg.splu / factorized: a direct factorization of ONE matrix; every later solve uses that matrix."""
+
+    def __init__(self, A):
+        self.A = A
+        self.shape = (len(A.rows), len(A.rows))
+
+    def solve(self, b, trans="N"):
+        if trans != "N":
+            raise Unsupported("splu(...).solve(trans != 'N')")
+        x, _ = LinSolve.solve("spsolve", self.A, b, {"via": "splu"})
+        return x
+
+    __call__ = solve
+
+
+def splu(A, *a, **kw):
+    return _Factorization(A)
+
+
+def factorized(A):
+    return _Factorization(A)
+
+
+def solve_banded(l_and_u, ab, b, **kw):
+    raise Unsupported("scipy.linalg.solve_banded")
+
+
 class _Linalg:
     bicgstab = staticmethod(bicgstab)
     spsolve = staticmethod(spsolve)
+    splu = staticmethod(splu)
+    spilu = staticmethod(splu)
+    factorized = staticmethod(factorized)
 
 
 class SPARSE:
